@@ -101,7 +101,15 @@ def cases(draw):  # pylint: disable=too-many-locals,too-many-branches,too-many-s
         if k == "visit":
             # a deliberate episode: move in, several configured codes, then one of the ways to end it
             tx, ty = rnd.target("in", draw(st.integers(0, 7)), draw(st.integers(0, 120)), draw(st.integers(0, 120)))
-            prog.append(["g", "G1 X%s Y%s" % (gen.fmt(tx), gen.fmt(ty))])
+            wipe = ""
+            if draw(st.integers(0, 3)) == 0:
+                # Slic3r-style entering move that retracts while moving
+                e -= 0.508
+                wipe = " E%s" % gen.fmt(e)
+            prog.append(["g", "G1 X%s Y%s%s" % (gen.fmt(tx), gen.fmt(ty), wipe)])
+            if wipe and draw(st.booleans()):
+                e += 0.508
+                prog.append(["g", "G1 E%s" % gen.fmt(e)])
             for _k in range(draw(st.integers(2, 6))):
                 c = draw(st.sampled_from(codes + codes + POOL))
                 prog.append(["g", draw(instance(c))])
@@ -241,6 +249,11 @@ def check_trace(tr, ext, enter, exit_):  # pylint: disable=too-many-branches,too
         if it.opening:
             if it.out[:len(enter)] != enter:
                 out.append(F("c06_enter_script", it, "episode opens with %r, expected the enter script %r first" % (it.out, enter)))
+            elif it.kind == "g" and it.u_step is not None and it.u_step.dfil >= 0 and it.out != enter:
+                # only an entering move that itself retracts may be followed by (retraction) commands
+                out.append(F("c06_enter_script_extra", it, "episode opens with %r, expected exactly the enter script %r" % (it.out, enter)))
+            if it.kind == "g" and it.u_step is not None and it.u_step.dfil < 0:
+                cl.add("entering_move_retracts")
             cl.add("episode")
         if it.closing:
             want = []
